@@ -95,6 +95,9 @@ def value_text(v):
     return None
 
 
+ADDR = re.compile(r" object at 0x[0-9a-f]+")
+
+
 def dumpstructs(ctx, n):
     from dissect.cstruct import dumpstruct
 
@@ -160,14 +163,15 @@ def dumpstructs(ctx, n):
                     ctx.violation("dumpstruct", "dumpstruct-class-form-does-not-show-the-bytes-it-was-given",
                                   engine.case_detail(case, cfg=cfgd, data=inp, color=color, got=ANSI.sub("", out2),
                                                      want=ref_hexdump(inp[:r[2]])))
-                if ANSI.sub("", out2).split("\n\n", 1)[-1] != plain.split("\n\n", 1)[-1] and body == inp[:r[2]]:
+                # (the listing of a void member shows its default repr, which contains the object's address)
+                if ADDR.sub("", ANSI.sub("", out2)).split("\n\n", 1)[-1] != ADDR.sub("", plain).split("\n\n", 1)[-1] and body == inp[:r[2]]:
                     ctx.violation("dumpstruct", "dumpstruct-class-form-differs-from-instance-form",
                                   engine.case_detail(case, cfg=cfgd, data=inp, color=color))
                 if not gen.has_eof(top) and body == inp[:r[2]]:
                     # bytes after the structure are not part of it: the dump stays the dump of the structure's bytes
                     out3 = dumpstruct(cs.T, inp[:r[2]] + b"TRAILING-BYTES-" * 2, output="string", color=color)
                     ctx.event("dumpstruct_with_trailing_bytes")
-                    if ANSI.sub("", out3) != ANSI.sub("", out2):
+                    if ADDR.sub("", ANSI.sub("", out3)) != ADDR.sub("", ANSI.sub("", out2)):
                         ctx.violation("dumpstruct", "dumpstruct-class-form-shows-bytes-after-the-structure",
                                       engine.case_detail(case, cfg=cfgd, data=inp, color=color,
                                                          got=ANSI.sub("", out3), want=ANSI.sub("", out2)))
